@@ -20,7 +20,7 @@ def nextafter(x, up):
 
 def special_points():
     pts = [0.0, -0.0, 5e-324, 1e-300, 1e-20, 1e-8, 3e-6]
-    for c in (1e-5, 5.0, 0.5, 1.0, 2.404825557695773, 3.8317059702075125, 5.135622301840683, 5.520078110286311, 25.0, 60.0):
+    for c in (1e-5, 5.0, 0.25, 0.5, 1.0, 2.404825557695773, 3.8317059702075125, 5.135622301840683, 5.520078110286311, 25.0, 60.0):
         pts += [c, nextafter(c, True), nextafter(c, False)]
     return pts + [-p for p in pts if p != 0]
 
